@@ -156,6 +156,10 @@ def coq_term(case, impl):
 def compare(case, impl, model):
     w = f"(rank {impl.get('rank')}, annotation {impl.get('annotation')!r}, instance {impl.get('instance')}, cycles {impl.get('ncycles')})"
     if "error" in impl:
+        if case.get("profile") == "cp_neg" and impl["error"].startswith("ValueError: Graph is not valid"):
+            # a trace that is NOT causally consistent may have no valid graph at all (a zero-weight launch edge pointing back in time can
+            # close a cycle): no successful analysis, so no graph to save -- outside this property's quantifier
+            return []
         if impl["error"].startswith("AssertionError") and impl.get("all_zero_weights"):
             return []
         return [f"critical_path_analysis raised {impl['error'][:300]} {w}"]
